@@ -154,11 +154,24 @@ func (u *Universe) StorageRoot(st []int64) common.Hash {
 	return st2.Hash()
 }
 
+// SentinelAddr is an account outside the universe whose nonce the C14 driver bumps before
+// every commit (like the sender nonce of a real block), so that no state root ever recurs.
+var SentinelAddr = common.HexToAddress("0xfe00000000000000000000000000000000000001")
+
 // RefRoot computes the state root of a model world: storage tries first, then the account
 // trie, both with an ordered StackTrie over the hashed keys.
-func (u *Universe) RefRoot(w World) common.Hash {
+func (u *Universe) RefRoot(w World) common.Hash { return u.RefRootS(w, 0) }
+
+// RefRootS is RefRoot for a world that additionally holds the sentinel account with the
+// given nonce (0 = no sentinel).
+func (u *Universe) RefRootS(w World, sentinel uint64) common.Hash {
 	type kv struct{ k, v []byte }
 	var items []kv
+	if sentinel != 0 {
+		sa := types.StateAccount{Nonce: sentinel, Balance: uint256.NewInt(0), Root: types.EmptyRootHash, CodeHash: types.EmptyCodeHash.Bytes()}
+		enc, _ := rlp.EncodeToBytes(&sa)
+		items = append(items, kv{crypto.Keccak256(SentinelAddr.Bytes()), enc})
+	}
 	for i, ac := range w {
 		if !ac.Ex {
 			continue
@@ -451,6 +464,9 @@ type Machine struct {
 	SnapIDs []int // real revision ids, parallel to the model's snapshot stack
 	InTx    bool
 
+	Counter  *uint64 // C14: shared commit counter, the sentinel nonce of the next commit (nil = no sentinel)
+	Sentinel uint64  // C14: sentinel nonce in the state this StateDB was opened on
+
 	LastBAL  *bal.ConstructionBlockAccessList // returned by the last Finalise
 	LastRoot common.Hash                      // returned by the last IntermediateRoot / Commit
 	Reader   int                              // rotates the getter used by ReadAccount / ReadSlot
@@ -629,7 +645,7 @@ func (m *Machine) Project(cold bool) (Proj, []string) {
 // of all accounts with the reference roots of the model world w.
 func (m *Machine) CheckRoots(w World) []string {
 	var out []string
-	if want := m.U.RefRoot(w); m.LastRoot != want {
+	if want := m.U.RefRootS(w, m.Sentinel); m.LastRoot != want {
 		out = append(out, fmt.Sprintf("IntermediateRoot returned %x, the root of the model world is %x", m.LastRoot, want))
 	}
 	for i, ac := range w {
